@@ -107,9 +107,10 @@ theorem dergstrip_is_deriv_gstrip (rho s : ℝ) (hs : -1 < s ∧ s < 1) :
 example : HasDerivAt (fun y : ℝ => gstrip (11 / 10) y) (dergstripInterior (11 / 10) (1 / 2)) (1 / 2) :=
   dergstrip_is_deriv_gstrip _ _ (by norm_num)
 
-/-- Full statement for the strip rules (not proved): `_gstrip rho` fixes `±1`, is strictly increasing on
+/-- Full statement for the strip rules: `_gstrip rho` fixes `±1`, is strictly increasing on
 `[-1, 1]` for `rho > 1`, and the `np.isclose` branch of `_dergstrip` is the one-sided limit of the
-derivative at `|s| = 1`.  Decided on the implementation by the oracle (mpmath). -/
+derivative at `|s| = 1`.  **Proved** as `gstrip_shape` in `Props/C01/Strip.lean` (and checked on the
+implementation by the oracle with mpmath). -/
 def gstrip_shape_full : Prop :=
   ∀ rho : ℝ, 1 < rho → gstrip rho 1 = 1 ∧ gstrip rho (-1) = -1 ∧
     StrictMonoOn (fun s => gstrip rho s) (Set.Icc (-1) 1) ∧
